@@ -830,7 +830,7 @@ theorem C09_stsei_unbond_closing_batch_tx_succeeds (s : Sys) (u : Addr) (amt : N
     (nodup_sortDesc _ df.1)
     (fun x hx => by rw [ch2]; exact df.2 x ((mem_sortDesc x _).mp hx))
     (fun j => (c12.2.2 j).1) (by rw [ch2]; exact hnu)
-  have hklen : k ≤ 5 := by
+  have hklen : k ≤ 12 := by
     have h1 : (sortDesc s.hubEnv.delegations).length = s.hubEnv.delegations.length := by
       have : ∀ l : List (Addr × Nat), (sortDesc l).length = l.length := by
         intro l
@@ -845,8 +845,8 @@ theorem C09_stsei_unbond_closing_batch_tx_succeeds (s : Sys) (u : Addr) (amt : N
             | cons y ys ihy => simp only [insDesc]; split <;> simp [ihy]
           rw [e, ins, ih]; rfl
       exact this _
-    have h2 : s.hubEnv.delegations.length ≤ 5 := by
-      show (s.delegationsOf hubA).length ≤ 5
+    have h2 : s.hubEnv.delegations.length ≤ 12 := by
+      show (s.delegationsOf hubA).length ≤ 12
       unfold Sys.delegationsOf
       simp only [if_true, List.length_map]
       exact Nat.le_trans (List.length_filter_le _ _) (by decide)
@@ -1397,7 +1397,7 @@ theorem C09_bsei_unbond_closing_batch_tx_succeeds (s : Sys) (u : Addr) (amt : Na
     (nodup_sortDesc _ df.1)
     (fun x hx => by rw [ch4]; exact df.2 x ((mem_sortDesc x _).mp hx))
     (fun j => (c12.2.2 j).1) (by rw [ch4]; exact hnu)
-  have hklen : k ≤ 5 := by
+  have hklen : k ≤ 12 := by
     have h1 : (sortDesc (s.delegationsOf hubA)).length = (s.delegationsOf hubA).length := by
       have : ∀ l : List (Addr × Nat), (sortDesc l).length = l.length := by
         intro l
@@ -1412,7 +1412,7 @@ theorem C09_bsei_unbond_closing_batch_tx_succeeds (s : Sys) (u : Addr) (amt : Na
             | cons y ys ihy => simp only [insDesc]; split <;> simp [ihy]
           rw [e, ins, ih]; rfl
       exact this _
-    have h2' : (s.delegationsOf hubA).length ≤ 5 := by
+    have h2' : (s.delegationsOf hubA).length ≤ 12 := by
       unfold Sys.delegationsOf
       simp only [if_true, List.length_map]
       exact Nat.le_trans (List.length_filter_le _ _) (by decide)
